@@ -33,7 +33,8 @@ fn renderings(t: &mut Tape, schema: &crate::world::schema::Schema) -> Vec<Render
         include_directives: t.chance(70),
         order: if t.chance(50) { t.u64() | 1 } else { 0 },
         keep_kind_order: true,
-        include_is_one_of: t.chance(60),
+        // a rendering without `isOneOf` is not the same schema when it has @oneOf inputs
+        include_is_one_of: { t.byte(); true },
         pretty: t.chance(30),
     };
     let ext = (*t.pick(&["graphql", "graphqls", "gql"])).to_string();
